@@ -1,74 +1,24 @@
 #!/usr/bin/env python3
-"""Regenerate /verif/MANIFEST.json from the table below (single source of truth)."""
+"""Regenerate /verif/MANIFEST.json from tools/checks/Cxx.json (one file per claimed property)
+and tools/not_applicable.json (reasons for unclaimed ones)."""
+import glob
 import json
 import os
 
 ROOT = os.path.dirname(os.path.dirname(os.path.abspath(__file__)))
-
-# id -> (spec modules, technique, level text, level note, design ref)
-CHECKS = {
-    "C17": (
-        "spec/Conf.tla + spec/trace/ConfTrace.tla",
-        "TLA+ model of BeartypeConf.__new__ (typed/effective-key memo) checked by TLC against the declarative "
-        "Ideal; every edge of the state graphs replayed into the real constructor in forked interpreters; "
-        "recorded random histories over all 17 options validated by a TLC trace spec",
-        "TLC explores all creation histories (<=2-3 calls) over valid, invalid and look-alike values of each option "
-        "group and proves Make = Ideal on the model; conformance replays every model edge on the real class "
-        "(outcome class, identity classes, read-back of every option, ==/hash, repr, kwargs round trip) and "
-        "validates long recorded histories against the same spec, so a change to the keying, validation or "
-        "defaulting logic is seen as a rejected trace or a mismatching edge.",
-        "Trusted: TLC, the value catalogue relating abstract option values to Python objects, fork isolation. "
-        "Equality of configurations is read as equality of effective (defaulted, sanified) options.",
-        "DESIGN.md §4 C17",
-    ),
-}
-
-_SEM = "spec/Semantics.tla + spec/MC_Semantics.tla"
-_SEM_NOTE = ("Trusted: TLC; the concretiser/projection verifkit/bind/sem.py relating abstract hints and objects to real "
-             "ones; the bounded grammar (container length <= L, depth <= 2) with stretching to 10..20000 items; the "
-             "draw abstraction r mod lcm(1..L) (checked as a model lemma and by lifted representatives).")
-CHECKS.update({
-    "C01": (_SEM, "TLA+ denotational semantics (Sat) vs transcribed generated check (Chk) model-checked by TLC over "
-            "all hints x objects x draw residues x configurations; TLC-emitted case table replayed into every real "
-            "entry point (conformance)",
-            "TLC proves Sat(Pub(h)) => Chk(h,x,r,conf) for every hint of the bounded grammar, every object of the "
-            "universe, every draw residue and configuration variant (and kills mutants of the generated check); every "
-            "enumerated case is then replayed on the real is_bearable / die_if_unbearable / TypeHint / decorated "
-            "parameter and return checks under all residues, several hint spellings and stretched containers, so a "
-            "generated-code change that rejects a conforming object for some nesting shape or draw is seen.",
-            _SEM_NOTE, "DESIGN.md §3, §4 C01"),
-    "C02": (_SEM, "TLC-computed MustReject / Weak / index-reachability vectors (declarative operators of Semantics.tla) "
-            "replayed against real verdict vectors over all draw residues; stretched sequences with one bad index",
-            "TLC proves on the model that MustReject => rejected under every draw, every sequence index is reachable, "
-            "is_random=False inspects item 0, accepted => Weak, ignorable children accept everything; the same vectors "
-            "are demanded of the real entry points for every enumerated case and for sequences of 10..20000 items over "
-            "all residues, with the sampler under harness control (one draw per check).",
-            _SEM_NOTE + " 'Item i violates' is read as MustReject(item hint, item i).", "DESIGN.md §4 C02"),
-    "C03": (_SEM, "cases from the TLC case table; relational conformance of the six real entry points per draw; "
-            "signal class checked against the violation-option lattice",
-            "For every enumerated (hint, conf, object, draw) case the six entry points must agree; rejections must be "
-            "exactly the configured class (defaults, custom exception, Warning => one warning and the call proceeds, "
-            "per-kind overrides, verbosity/colour variants), name the hint and carry the rejected object as first "
-            "culprit; any other exception (desynchronisation, builtin) is a violation.",
-            _SEM_NOTE, "DESIGN.md §4 C03"),
-    "C18": (_SEM, "TLC computes Rewrite(h, conf) and its denotation; metamorphic conformance: real verdict under the "
-            "option vs real verdict of the hand-rewritten hint, per object and draw",
-            "For every hint containing float/complex/A at any position of the bounded grammar, the verdict vector under "
-            "is_pep484_tower / hint_overrides equals that of the TLC-rewritten hint under the default configuration and "
-            "respects the rewritten meaning (Sat / MustReject); violation-type options never change a verdict.",
-            _SEM_NOTE, "DESIGN.md §4 C18"),
-})
-
 NOT_YET = "check not built yet in this round; the specification module is planned in DESIGN.md §4"
 
 
 def main():
+    checks_meta = {os.path.basename(f)[:-5]: json.load(open(f)) for f in glob.glob(os.path.join(ROOT, "tools/checks/C*.json"))}
+    na_path = os.path.join(ROOT, "tools/not_applicable.json")
+    na_reasons = json.load(open(na_path)) if os.path.exists(na_path) else {}
     props = [json.loads(l) for l in open(os.path.join(ROOT, "properties.jsonl"))]
     checks, na = [], []
     for p in props:
         pid = p["id"]
-        if pid in CHECKS:
-            spec, tech, text, note, ref = CHECKS[pid]
+        m = checks_meta.get(pid)
+        if m:
             checks.append({
                 "property_id": pid,
                 "quick_cmd": f"./check {pid} --tier quick",
@@ -76,29 +26,32 @@ def main():
                 "evidence_file": f"/verif/evidence/{pid}.json",
                 "replay_cmd_template": f"./check {pid} --replay {{path}}",
                 "engine": "tlc+conformance",
-                "level_claimed": {"category": "model_checking", "text": text, "design_ref": ref},
-                "level_note": note,
-                "technique": tech,
+                "level_claimed": {"category": m.get("category", "model_checking"), "text": m["text"],
+                                  "design_ref": m["design_ref"]},
+                "level_note": m["note"] + " Specification: " + m["spec"] + ".",
+                "technique": m["technique"],
             })
         else:
-            na.append({"property_id": pid, "reason": NA.get(pid, NOT_YET)})
+            na.append({"property_id": pid, "reason": na_reasons.get(pid, NOT_YET)})
+    hooks_path = os.path.join(ROOT, "tools/hooks.json")
+    hooks_extra = json.load(open(hooks_path)) if os.path.exists(hooks_path) else {}
     man = {
         "version": 1,
         "setup_cmd": "./setup.sh",
         "hooks": {
             "guard": "BEARTYPE_VERIF",
-            "enable": "no in-repo hooks: checks instrument the process from outside (PYTHONPATH=/repo, "
-                      "patched random.getrandbits / threading.Lock factories / importlib functions, spy containers); "
-                      "./check exports BEARTYPE_VERIF=1 for future add-only probes",
+            "enable": "checks instrument the process from outside (PYTHONPATH=/repo, patched random.getrandbits / "
+                      "threading.Lock factories / importlib functions, spy containers); ./check exports "
+                      "BEARTYPE_VERIF=1 for the add-only in-repo probes listed in source_commits (if any)",
             "baseline_off_cmd": "cd /repo && /venv/bin/python -m pytest -ra -q -p no:cacheprovider --timeout=900 "
                                 "--continue-on-collection-errors",
-            "source_commits": [],
+            "source_commits": hooks_extra.get("source_commits", []),
             "add_only": True,
         },
         "engines": [{
             "name": "tlc+conformance",
             "path": "/verif/check",
-            "serves_properties": sorted(CHECKS),
+            "serves_properties": sorted(checks_meta),
             "kind_free_text": "explicit TLA+ specifications under /verif/spec model-checked with TLC 1.8; bound to "
                               "the implementation by replaying TLC-generated behaviours / case tables into the real "
                               "code and by validating recorded executions against trace specifications",
@@ -110,15 +63,10 @@ def main():
     }
     with open(os.path.join(ROOT, "MANIFEST.json"), "w") as fh:
         json.dump(man, fh, indent=1)
-    try:
-        import jsonschema
-        jsonschema.validate(man, json.load(open("/root/.vp/MANIFEST.schema.json")))
-        print("MANIFEST.json valid;", len(checks), "checks,", len(na), "not applicable")
-    except ImportError:
-        print("written (jsonschema unavailable)")
+    import jsonschema
+    jsonschema.validate(man, json.load(open("/root/.vp/MANIFEST.schema.json")))
+    print("MANIFEST.json valid;", len(checks), "checks,", len(na), "not applicable")
 
-
-NA = {}
 
 if __name__ == "__main__":
     main()
